@@ -134,3 +134,15 @@ Proof.
   rewrite !(extract_bits_window p) by (auto; lia). reflexivity.
 Qed.
 Print Assumptions gen_header_values_total.
+
+(* ================= the property C03, stated of the functions generated from the source =================
+   for every well-formed buffer and every read inside it, the code's read_as_int / read_as_bytes (as translated) return the value of
+   the addressed bits of the buffer's bit string (right-aligned bytes for read_as_bytes) and move the cursor by exactly n *)
+Theorem generated_read_as_int_meets_C03 B p n : wf B -> 0 <= p -> 0 <= n -> p + n <= 8 * zlen B ->
+  gen_read_as_int (VBytes B) (VInt p) (VInt n) = Ok (VInt (spec_int B p n), VInt (p + n)).
+Proof. intros W Hp Hn Hin. rewrite gen_read_as_int_is_model by assumption. now rewrite read_int_spec by assumption. Qed.
+Print Assumptions generated_read_as_int_meets_C03.
+Theorem generated_read_as_bytes_meets_C03 B p n : wf B -> 0 <= p -> 0 <= n -> p + n <= 8 * zlen B ->
+  gen_read_as_bytes (VBytes B) (VInt p) (VInt n) = Ok (VBytes (spec_bytes B p n), VInt (p + n)).
+Proof. intros W Hp Hn Hin. rewrite gen_read_as_bytes_is_model by assumption. now rewrite read_bytes_spec by assumption. Qed.
+Print Assumptions generated_read_as_bytes_meets_C03.
